@@ -113,6 +113,10 @@ def transpile_token(
                 after_char = next(iterator, "")
                 if after_char == "`":
                     temp += "`"
+                elif after_char == "":
+                    # a backslash that ends the string (only a
+                    # two-character string can end that way)
+                    temp += "\\\\"
                 else:
                     temp += "\\" + after_char
             elif char == '"':
